@@ -536,7 +536,7 @@ def gen_ops(rng, n, allow_rsa, snap_every):
             op = f"c2:{k}"
             ndec += 1
         elif r < 0.52:
-            op = f"cl:{'T' if rng.random() < 0.85 else 'F'}"
+            op = f"cl:{'T' if rng.random() < 0.85 else 'F'}" + rng.choice(["", "", ":1", ":2", ":7"])
             ndec += 1
         elif r < 0.62:
             op = "pf"
@@ -563,6 +563,8 @@ DIRECTED = [
     ["c2:1", "sn", "c2:0", "sn", "cl:T", "sn", "pf", "sn"],
     ["pf", "c2:0", "pf", "sn"],
     ["cl:T", "cl:T", "sn", "tr:0:0", "tr:1:0", "rc:0:1", "rc:1:1"],
+    ["cl:T", "cl:T:1", "sn", "tr:0:0", "tr:1:0", "rc:0:1", "rc:1:1", "cl:T:2", "cl:T", "sn"],
+    ["cl:T:3", "c2:1", "cl:T", "tr:0:0", "tr:1:1", "tr:2:0", "tr:0:1", "sn"],
     ["va:0", "c2:0", "va:0", "va:1", "sn"],
     ["sn", "c2:0", "sn", "c2:1", "sn", "c2:0", "sn"],
     ["va:1", "pf", "va:1", "c2:0", "va:1", "sn"],
@@ -767,6 +769,7 @@ class Runner:
         self.kept = []
         self._kept_ids = {}
         self.text_budget = 1
+        self.viol_extra = None
 
     def run(self, op):
         """→ (kind, payload, canonical value)"""
@@ -801,7 +804,8 @@ class Runner:
             st = _random.getstate()
             lvl = CL.logger.level
             try:
-                rc = cl.run(cfg, dry_run=True, beacon_id=1234 if w[1] == "T" else 0xFFFFFFFF, pid=4242, computer="PC",
+                bid = (1234 + 2 * int(w[2])) if len(w) > 2 else 1234
+                rc = cl.run(cfg, dry_run=True, beacon_id=bid if w[1] == "T" else 0xFFFFFFFF, pid=4242, computer="PC",
                             user="user", process="proc.exe", internal_ip="10.1.2.3", arch="x64")
             finally:
                 _random.setstate(st)
@@ -831,6 +835,14 @@ class Runner:
             tr = transforms_of(self.decs[d])[int(w[2])]
             st = _random.getstate()
             try:
+                # the default initial request (request=None) must behave like an explicitly passed empty request: nothing
+                # written by an earlier call (of any transform, on any object) may show up in it
+                _random.seed(1234)
+                dflt = tr.transform(C2.C2Data(**C2DATA))
+                _random.seed(1234)
+                expl = tr.transform(C2.C2Data(**C2DATA), request=C2.HttpRequest(method=b"", uri=b"", params={}, headers={}, body=b""))
+                if canon(dflt) != canon(expl):
+                    self.viol_extra = "default-request-carries-state"
                 _random.seed(1234)
                 req = tr.transform(C2.C2Data(**C2DATA), request=mk_request())
                 if o == "tr":
@@ -975,6 +987,8 @@ def impl(stream, line):
                 kind, payload, can, exc = "E", None, ("exc", type(e).__name__), exc_name(e)
             if len(r.decs) > ndec0:
                 variants[ndec0] = op
+            if r.viol_extra and viol is None:
+                viol = f"{r.viol_extra}@{i}"
             if kind == "M":
                 tokn = "M:" + render_mapping(table, payload)
             elif kind == "D":
